@@ -132,6 +132,7 @@ Definition dstep (h : dh) (o : dop) : dh * bool :=
       match kind_dt k with
       | None => (h, true)
       | Some d =>
+          if Qcltb c 0 then (h, true) else      (* a negative factor is refused before anything is touched *)
           let h1 := dcoerce h d in
           let f := map (Qcmult c) (y_freq h1) in
           if negb (nonneg f) then (h1, true) else
@@ -142,6 +143,7 @@ Definition dstep (h : dh) (o : dop) : dh * bool :=
       match kind_dt k with
       | None => (h, true)
       | Some d =>
+          if Qcltb c 0 then (h, true) else
           let h1 := dcoerce h (promote F64 d) in
           let f := map (fun x => x / c) (y_freq h1) in
           if negb (nonneg f) then (h1, true) else
